@@ -106,9 +106,22 @@ func genData(g *rand.Rand) (phaseA, phaseB []refql.Pt) {
 		// most points carry f and i; some only one field; s and b sparser
 		if g.Intn(10) > 0 {
 			p.F["f"] = float64(g.Intn(1<<16)) / 8
+			// tied extremes: selectors must pick the earliest of equal values
+			switch g.Intn(24) {
+			case 0:
+				p.F["f"] = float64(1<<16) / 8
+			case 1:
+				p.F["f"] = float64(-1)
+			}
 		}
 		if g.Intn(10) > 1 {
 			p.F["i"] = int64(g.Intn(2000) - 1000)
+			switch g.Intn(24) {
+			case 0:
+				p.F["i"] = int64(1000)
+			case 1:
+				p.F["i"] = int64(-1001)
+			}
 		}
 		if g.Intn(3) == 0 {
 			p.F["s"] = fmt.Sprintf("s%d", seq)
